@@ -291,6 +291,40 @@ impl pipe::Sink for ForwardedStreamSink {
 
         sink.flush().await
     }
+
+    #[cfg(trusttunnel_verif)]
+    fn verif_state(&self) -> Option<String> {
+        let (ss, buf, blen, sent, rem, last) = match &self.state {
+            SinkState::Idle => ("Idle", 0, -1, 0, 0, false),
+            SinkState::WaitingResponse(x) => {
+                ("WaitingResponse", x.headers_buffer.len(), -1, 0, 0, false)
+            }
+            SinkState::TransferringBodyNonEncoded(x) => (
+                "NonEncoded",
+                0,
+                x.body_length.map_or(-1, |n| n as i64),
+                x.sent_bytes,
+                0,
+                false,
+            ),
+            SinkState::WaitingChunkPrefix(x) => ("ChunkPrefix", x.buffer.len(), -1, 0, 0, false),
+            SinkState::TransferringBodyChunked(x) => (
+                "Chunked",
+                0,
+                -1,
+                0,
+                x.remaining_chunk_size.unwrap_or(0),
+                false,
+            ),
+            SinkState::WaitingChunkSuffix(x) => {
+                ("ChunkSuffix", x.buffer.len(), -1, 0, 0, x.terminating_chunk)
+            }
+        };
+        Some(format!(
+            "{{\"ss\":\"{}\",\"buf\":{},\"blen\":{},\"sent\":{},\"rem\":{},\"last\":{},\"fake\":{}}}",
+            ss, buf, blen, sent, rem, last, self.fake_unsent
+        ))
+    }
 }
 
 impl ForwardedStreamSink {
